@@ -993,6 +993,35 @@ impl FdsCase {
                     self.feats.push("drop-in-flight".into());
                 }
             }
+            ["fds", "dropfail", a, e] => {
+                // the handle is dropped while `io_uring_enter` would fail with errno `e` (a10 does not
+                // enter the kernel when an `AsyncFd` is dropped, so this is `drop`)
+                let Ok(e) = e.parse::<i32>() else { return bad() };
+                if !(1..4096).contains(&e) || e == libc::EINTR || e == libc::ETIME {
+                    return bad();
+                }
+                simk::with_ring(self.rfd, |r, _| {
+                    r.enter_scripts.clear();
+                    r.enter_scripts.push_back(simk::EnterScript { fail: Some(e), ..Default::default() });
+                });
+                let line = format!("fds drop {a}");
+                out = self.exec_inner(&line);
+                simk::with_ring(self.rfd, |r, _| r.enter_scripts.clear());
+                self.feats.push("drop-while-enter-fails".into());
+            }
+            ["fds", "rpollfail", e] => {
+                let Ok(e) = e.parse::<i32>() else { return bad() };
+                if !(1..4096).contains(&e) || e == libc::EINTR || e == libc::ETIME {
+                    return bad();
+                }
+                simk::with_ring(self.rfd, |r, _| {
+                    r.enter_scripts.clear();
+                    r.enter_scripts.push_back(simk::EnterScript { fail: Some(e), ..Default::default() });
+                });
+                out = self.do_rpoll();
+                simk::with_ring(self.rfd, |r, _| r.enter_scripts.clear());
+                self.feats.push("ring-poll-enter-fails".into());
+            }
             ["fds", "drop", a] => {
                 let Ok(a) = a.parse::<usize>() else { return bad() };
                 if !self.live_handle(a) || self.borrowed(a) {
@@ -1455,8 +1484,12 @@ impl Case for FdsCase {
                 let e = *rng.pick(&[libc::EINTR, libc::ECANCELED, libc::ECANCELED, libc::EIO, libc::EAGAIN, libc::EMFILE, libc::ENFILE]);
                 Some(format!("fds kpost {i} err {e} 0"))
             }
-            7 => Some("fds rpoll".into()),
-            8 => Some(format!("fds drop {}", rng.pick(&droppable))),
+            7 => Some(if rng.chance(1, 12) { format!("fds rpollfail {}", *rng.pick(&[libc::EBUSY, libc::ENOMEM, libc::EAGAIN, libc::EEXIST, libc::EBADR])) } else { "fds rpoll".into() }),
+            8 => Some(if rng.chance(1, 6) {
+                format!("fds dropfail {} {}", rng.pick(&droppable), *rng.pick(&[libc::EBUSY, libc::ENOMEM, libc::EEXIST]))
+            } else {
+                format!("fds drop {}", rng.pick(&droppable))
+            }),
             9 => Some(format!("fds std {} {}", self.handles.len(), rng.below(3))),
             _ => {
                 // malformed stream
